@@ -52,7 +52,7 @@ PROBES = ["identity_sampler", "counting_sampler", "recording_builtin", "builtin_
 
 SCORE_NAMED = ["tpr", "fnr", "tnr", "fpr", "topr", "tonr", "tar", "frr", "far", "trr", "acceptance_rate", "rejection_rate"]
 THR_AT = ["threshold_at_fpr", "threshold_at_fnr", "threshold_at_tpr", "threshold_at_tnr"]
-CALLABLES = ["mean_pos", "sizes", "fnr_fpr_mat", "py_float", "int_count", "spread", "spread_or_zero", "max_mult4", "inv_spread", "tuple_rates", "list_rates"]
+CALLABLES = ["mean_pos", "sizes", "fnr_fpr_mat", "py_float", "int_count", "spread", "spread_or_zero", "max_mult4", "inv_spread", "tuple_rates", "list_rates", "max_native", "max_native"]
 GROUP_CALLABLES = ["groupwise_fnr", "group_sizes"]
 
 
@@ -172,7 +172,9 @@ def generate(rnd, tier):
             ops.append({"op": "reseed", "seed": rnd.randrange(2**31)})
             continue
         metric = gen_metric(rnd, is_group)
-        if obj.get("subclass") and rnd.random() < 0.3:
+        if obj.get("subclass") and not is_group and len(obj.get("neg") or []) >= 2 and rnd.random() < 0.25:
+            metric = {"name": "neg_tail", "kwargs": {}}
+        elif obj.get("subclass") and rnd.random() < 0.3:
             metric = {"name": "tnr", "kwargs": {"threshold": c12.gen_thr(rnd) if rnd.random() < 0.7 else {"shape": [], "data": [0.0]}}}
             if metric["kwargs"]["threshold"]["shape"] == [0]:
                 metric["kwargs"]["threshold"] = {"shape": [2], "data": [0.0, 1.0]}
@@ -187,6 +189,9 @@ def generate(rnd, tier):
             else:
                 metric = {"callable": "mean_pos", "kwargs": {}}
         sampler = gen_sampler(rnd, is_group, big)
+        if metric.get("name") == "neg_tail":
+            # (class sizes must not change from sample to sample: the metric's shape is the tail's length)
+            sampler = {"callable": "counting", "mixed": False, "outer_strat": None}
         if is_group and big and rnd.random() < 0.5:
             # the method-resolution interplay: "dynamic" is resolved differently by Scores and GroupScores (by_group forces
             # replacement); a built-in configuration observed through a recording metric
@@ -258,6 +263,9 @@ def base_metric(name, L):
         # a guard returning a Python int in the degenerate case: the return *type* depends on the sample (never on the
         # source alone: resamples of a constant class are constant)
         return lambda s, **kw: 0 if len(s.pos) == 0 or s.pos[0] == s.pos[-1] else float(s.pos[-1] - s.pos[0]) / 3.0
+    if name == "max_native":
+        # an order statistic in the scores' own dtype (np.uint8 for 8-bit match scores, np.float32, ...), not a float
+        return lambda s, **kw: s.pos[-1] if len(s.pos) else (s.neg[0] if len(s.neg) else float("nan"))
     if name == "tuple_rates":
         # a tuple of arrays: the metric's own shape is (2,) + threshold shape
         return lambda s, threshold=0.0, **kw: (np.asarray(s.fnr(threshold), dtype=float), np.asarray(s.fpr(threshold), dtype=float))
@@ -439,6 +447,9 @@ def execute(scn, ctx):
             def extra_metric(self, threshold):
                 return 2.0 * np.asarray(base_cls.fnr(self, threshold), dtype=float) + 0.125
 
+            def neg_tail(self):  # a view of the object's own array, not a copy
+                return self.neg[-2:]
+
             def tnr(self, threshold):  # an override of a metric the library defines itself (a smoothed rate, say)
                 return 0.5 * np.asarray(base_cls.tnr(self, threshold), dtype=float) + 0.25
 
@@ -528,8 +539,8 @@ def execute(scn, ctx):
                 probe(pn)
         control_fault = res["interrupted"] or "callback_raise" in fired or "sampler_raise" in fired
 
-        def bad(name, detail):
-            viol.append({"invariant": f"C14.{name}", "detail": f"{detail} [op {step}]", "tags": tags})
+        def bad(name, detail, extra=None):
+            viol.append({"invariant": f"C14.{name}", "detail": f"{detail} [op {step}]", "tags": dict(tags, **(extra or {}))})
 
         runaway = [cb_ for cb_ in (sampler, None if named else metric) if cb_ is not None and cb_.runaway]
         if runaway:
@@ -664,7 +675,13 @@ def execute(scn, ctx):
                     probe("rows_checked", nb)
                     for j in range(nb):
                         if not rows_equal(arr[j], reps[j], arr.dtype):
-                            bad("row_is_metric_of_sample", f"row {j} = {np.asarray(arr[j]).tolist()} but the metric of the {j}-th sample is {np.asarray(reps[j]).tolist()}")
+                            # finding F11: the result array takes the dtype of the metric of the *original* object; a metric that
+                            # is integer-valued there and float-valued on a resample is truncated, row by row
+                            f11 = (est is not None and not np.can_cast(np.asarray(reps[j]).dtype, np.asarray(est).dtype, "safe")
+                                   and arr.dtype == np.asarray(est).dtype
+                                   and all(rows_equal(arr[i_], np.asarray(reps[i_]).astype(arr.dtype), arr.dtype) for i_ in range(nb)))
+                            bad("row_is_metric_of_sample", f"row {j} = {np.asarray(arr[j]).tolist()} but the metric of the {j}-th sample is {np.asarray(reps[j]).tolist()}",
+                                {"f11_signature": True} if f11 else None)
                             break
                     if np.isnan(np.asarray(arr, dtype=float)).any():
                         probe("nan_replicate")
@@ -692,7 +709,16 @@ def execute(scn, ctx):
                             if M.close(ci, exp, 1e-9):
                                 break
                         if exp is not None and not M.close(ci, exp, 1e-9):
-                            bad("ci_formula", f"bootstrap_ci = {ci.tolist()} but the {method} formula on the recorded replicates with the source metric as estimate gives {exp.tolist()}")
+                            f11 = False
+                            if est is not None and any(not np.can_cast(np.asarray(r).dtype, np.asarray(est).dtype, "safe") for r in reps):
+                                # F11 again, seen through bootstrap_ci: the interval is the formula's on the truncated replicates
+                                th_t = np.asarray(est, dtype=float)
+                                theta_t = np.stack([np.asarray(r).astype(np.asarray(est).dtype).astype(float) for r in reps], axis=0)
+                                exp_t = (np.stack([M.ref_ci(theta_t, th_t, a, method) for a in alpha], axis=-2) if isinstance(alpha, list)
+                                         else M.ref_ci(theta_t, th_t, alpha, method))
+                                f11 = M.close(ci, exp_t, 1e-9)
+                            bad("ci_formula", f"bootstrap_ci = {ci.tolist()} but the {method} formula on the recorded replicates with the source metric as estimate gives {exp.tolist()}",
+                                {"f11_signature": True} if f11 else None)
                         if method != "quantile" and theta.size:
                             fl_ = theta.reshape(theta.shape[0], -1)
                             p0 = np.mean(fl_ <= th.reshape(1, -1), axis=0)
